@@ -13,7 +13,9 @@ func (node *tagFirstofNode) Execute(ctx *ExecutionContext, writer TemplateWriter
 		}
 
 		if val.IsTrue() {
-			if ctx.Autoescape && !arg.FilterApplied("safe") {
+			// (like {{ }} and cycle: what is already marked safe, e.g. the result of escape or
+			// of a macro, is not escaped a second time)
+			if ctx.Autoescape && !arg.FilterApplied("safe") && !val.safe && val.needsEscape() {
 				val, err = ApplyFilter("escape", val, nil)
 				if err != nil {
 					return err
